@@ -21,7 +21,7 @@ ASSUMPTIONS = [
     "message lists (paths, visited, hosts) are shared by reference between sender and receiver, as with the in-process transport",
 ]
 BOUNDS = {"quick": "3 agents in a line (x-y-z, one computation each), k in {1,2}; canonical schedule with symbolic costs + all FIFO interleavings with pinned costs; a star of 4 computations with two of them on one agent (k=2, canonical schedule)",
-          "thorough": "quick + all FIFO interleavings with symbolic costs (k=1), triangle of agents, 2 computations on one agent"}
+          "thorough": "quick + all FIFO interleavings with symbolic costs (k=1), triangle of agents; bug hunting only (cpu budget): an agent owning two computations with every interleaving of the deliveries (sleep-set reduced)"}
 OUTSIDE = "more than 3 agents, k = 3, agent departures during replication, the HTTP transport"
 CAP_S = {"quick": 1200, "thorough": 10800}
 LIM = 2 ** 20
@@ -35,6 +35,12 @@ def jobs(tier):
     # two computations of different footprints on one agent: their replicas meet on a third agent
     out.append({"name": "star-two-on-one-fixed", "struct": "star3", "ks": [2], "fixed": True, "sleep": False, "pins": {"route": 1, "host": 1},
                 "owners": {"x": "a1", "y": "a0", "z": "a0", "w": "a2"}})
+    # an agent owning two computations, every interleaving (all numbers pinned): the two searches share nothing
+    two = {"struct": "star3", "ks": [2], "fixed": False, "pins": {"cap": 10, "foot": 2, "route": 1, "host": 1},
+           "owners": {"x": "a1", "y": "a0", "z": "a0", "w": "a2"}}
+    # > 10^5 interleavings: thorough tier only, under its cpu budget (bug hunting)
+    if tier == "thorough":
+        out.append(dict(two, name="two-on-one-allsched", hunt_cpu_s=5000))
     if tier == "thorough":
         out += [{"name": "line3-allsched-sym-k1", "struct": "chain3", "ks": [1], "fixed": False},
                 {"name": "triangle-fixed-sym", "struct": "triangle", "ks": [1, 2], "fixed": True}]
@@ -86,6 +92,8 @@ def run(eng, p):
     # of its key alone (same owner tuple => same footprints), so deliveries to different agents still commute
     bench = Bench(eng, sleep_sets=bool(p.get("sleep", True)))
     bench.fixed_schedule = bool(p.get("fixed"))
+    if p.get("free_targets"):
+        bench.free_targets = set(p["free_targets"])
     for a in agts:
         adef = AgentDef(a, capacity=num("cap_" + a, "cap"), default_hosting_cost=num("host_" + a, "host"),
                         routes={b: route[(a, b)] for b in agts if b != a}, default_route=1)
